@@ -21,7 +21,9 @@ func init() { vh.Register("C17", runC17) }
 
 var entNames = []string{"Foo", "foo", "fooBar", "FooBar", "foo_bar", "Foo_Bar", "FOO", "FooS", "F", "f", "ABc", "Foo2", "foo2bar",
 	"A1", "fooBAR", "FOOBar", "x", "a_b_c", "Widget", "userID", "HTTPServer", "Order_v2", "orderLine", "Thing1", "aB", "Ab", "AB", "iOS",
-	"foo_", "foo__bar", "FooEvent", "FooState", "State", "Keys", "fooKeys", "X9Y", "x9", "Z_", "camelCaseName", "snake_case_name", "SCREAMING_NAME"}
+	"foo_", "foo__bar", "FooEvent", "FooState", "State", "Keys", "fooKeys", "X9Y", "x9", "Z_", "camelCaseName", "snake_case_name", "SCREAMING_NAME",
+	// the entity's own property in the Get / List responses sits next to events / page
+	"Page", "Events", "Query"}
 
 var pkgNames = []string{"foo.v1", "foo.v1", "bar.baz.v2", "a.v1", "test.deep.pkg.v3"}
 
@@ -708,7 +710,7 @@ func runC17(cfg *vh.Config) error {
 				a, b := squash(first.Name), squash(d.Name)
 				return a == "" || strings.HasPrefix(a, b) || strings.HasPrefix(b, a)
 			}
-			for first.pathKeyReserved() || first.summaryUpsert() || first.eventNamedType() || clash() {
+			for first.pathKeyReserved() || first.summaryUpsert() || first.eventNamedType() || first.namedLikeResponseField() || clash() {
 				first = genEntityOpt(r, false, "")
 			}
 			first.Commands, first.Summaries = nil, nil
@@ -763,6 +765,8 @@ func runC17(cfg *vh.Config) error {
 					sig = "C17 entity name ending in a capital fails to compile: type <Name>State/Event/EventType not found (entity.go naming)"
 				case errc == 6 && anyEnt(d, (*entityDecl).pathKeyReserved):
 					sig = "C17 primary/shard key named page or query collides with the pagination field acceptQuery adds to the List/Events request: link error symbol already defined"
+				case errc == 6 && anyEnt(d, (*entityDecl).namedLikeResponseField):
+					sig = "C17 entity named page (or events with eventsInGet) collides with the page (events) property next to the entity's own property in the generated List (Get) response: link error symbol already defined"
 				case errc == 6 && anyEnt(d, (*entityDecl).eventNamedType):
 					sig = "C17 event whose oneof option is named type collides with the proto oneof type of the EventType wrapper: link error symbol already defined"
 				case errc == 6 && anyEnt(d, (*entityDecl).summaryUpsert):
@@ -881,6 +885,11 @@ func (d *entityDecl) pathKeyReserved() bool {
 		}
 	}
 	return false
+}
+
+func (d *entityDecl) namedLikeResponseField() bool {
+	n := strcase.ToSnake(strcase.ToLowerCamel(strcase.ToSnake(d.Name)))
+	return n == "page" || (n == "events" && d.Query != nil && d.Query.EventsInGet)
 }
 
 func (d *entityDecl) eventNamedType() bool {
